@@ -1,12 +1,15 @@
 package verifsim
 
 import (
-	"strings"
 	"crypto/sha256"
 	"encoding/json"
 	"fmt"
 	"os"
 	"path/filepath"
+	"strconv"
+	"strings"
+	"sync"
+	"sync/atomic"
 	"testing"
 	"time"
 )
@@ -194,22 +197,63 @@ func doRuns(e *Engine, job *Job, out *WorkerOut, start time.Time) {
 			out.Violations = append(out.Violations, ViolOut{Violation: res.Viol, Seed: seed, Replay: rf, TapeLen: len(res.Tape), OrigLen: len(res.Tape)})
 		}
 	}
+	// watchdog (real time, outside every bubble): a run that does not end is one in which some goroutine is blocked
+	// where the simulator cannot see it (e.g. on a sync.Mutex held across a parked call), so that quiescence never
+	// comes. The worker then hands in what it has (violations found so far stay reportable) and names the seed.
+	var wmu sync.Mutex
+	var curSeed atomic.Uint64
+	var curStart atomic.Int64
+	stuckAfter := 300 * time.Second
+	if v, err := strconv.Atoi(os.Getenv("VERIF_STUCK_S")); err == nil && v > 0 {
+		stuckAfter = time.Duration(v) * time.Second
+	}
+	go func() {
+		for {
+			time.Sleep(time.Second)
+			st := curStart.Load()
+			if st == 0 || time.Since(time.Unix(0, st)) < stuckAfter {
+				continue
+			}
+			wmu.Lock()
+			out.HarnessErrors = append(out.HarnessErrors, fmt.Sprintf("seed=%d: run did not end within %v of real time (a goroutine is blocked outside the simulator's control); worker abandoned after %d runs", curSeed.Load(), stuckAfter, out.Runs))
+			out.Stats["stuck_runs"]++
+			for d := range digs {
+				out.Digests = append(out.Digests, d)
+			}
+			for d := range ntdigs {
+				out.NontrivDig = append(out.NontrivDig, d)
+			}
+			out.WallS = time.Since(start).Seconds()
+			b, _ := json.Marshal(out)
+			_ = os.WriteFile(job.Out, b, 0o644)
+			os.Exit(0)
+		}
+	}()
 	for i := job.Worker; i < job.MaxRuns; i += job.Workers {
 		if job.BudgetS > 0 && time.Now().After(deadline) {
 			break
 		}
 		seed := Mix(job.BaseSeed, job.Prop, uint64(i))
+		curSeed.Store(seed)
+		curStart.Store(time.Now().UnixNano())
 		res := execute(e, job.Prop, job.Tier, seed, NewGenTape(seed), job.Opt)
+		curStart.Store(0)
+		wmu.Lock()
 		handle(i, seed, res, job.Opt)
+		wmu.Unlock()
 		for _, sub := range res.SubRuns {
 			if job.BudgetS > 0 && time.Now().After(deadline.Add(time.Duration(job.BudgetS*float64(time.Second)))) {
 				out.Stats["subruns_cut_by_budget"]++
 				break
 			}
 			opt := withOpt(job.Opt, "sub", sub)
+			curStart.Store(time.Now().UnixNano())
 			sres := execute(e, job.Prop, job.Tier, seed, NewGenTape(seed), opt)
+			curStart.Store(0)
+			wmu.Lock()
 			out.Stats["subruns"]++
 			handle(-1, seed, sres, opt)
+			wmu.Unlock()
 		}
 	}
 	for d := range digs {
